@@ -240,7 +240,15 @@ where
         for (class, info) in self.class_info.iter() {
             // Combine feature log probabilities and class priors to get log-likelihood for each class
             let jointi = info.prior.ln();
-            let nij = x.dot(&info.feature_log_prob);
+            // A feature that does not occur in a sample contributes nothing, even when its
+            // log-probability is -inf (alpha = 0 and the feature was never seen in this class):
+            // 0 * ln(0) is 0 here, a plain dot product would turn it into NaN
+            let nij = x.map_axis(Axis(1), |row| {
+                row.iter()
+                    .zip(info.feature_log_prob.iter())
+                    .filter(|(v, _)| **v != F::zero())
+                    .fold(F::zero(), |acc, (v, lp)| acc + *v * *lp)
+            });
             joint_log_likelihood.insert(class, nij + jointi);
         }
 
